@@ -60,7 +60,11 @@ var nontrivialRules = map[string]func(st map[string]int, val interface{}, err er
 
 func predDiff(c Case) (r Result) {
 	toks, st, why := ref.Lex(c.Expr)
-	if st != ref.LexOK {
+	// an integer beyond int64 is an implementation limit: the library may refuse the text, but
+	// if it takes it, the text means what the grammar says (an index no array has, a bound
+	// beyond every end), not what is left of the integer after a wrap-around
+	bigInt := st == ref.LexOutOfDomain && why == ref.WhyBigInt
+	if st != ref.LexOK && !bigInt {
 		r.Discard = "generator:not-lexable:" + why
 		return
 	}
@@ -68,6 +72,12 @@ func predDiff(c Case) (r Result) {
 	if perr != nil {
 		r.Discard = "generator:not-a-sentence"
 		return
+	}
+	if bigInt {
+		if _, cerr, pan := libCompile(c.Expr); pan == nil && cerr != nil {
+			r.Discard = "out-of-domain:" + why + " (refused by the library)"
+			return
+		}
 	}
 	doc := mustJSON(c.Doc)
 	ev := &ref.Ev{}
